@@ -385,7 +385,13 @@ fn terr_obs(e: &TemplateError) -> String {
 fn reg_obs(r: Result<(), TemplateError>) -> String {
     match r {
         Ok(()) => "ok".to_string(),
-        Err(e) => terr_obs(&e),
+        // the name the error carries is appended for the implementation-side oracle of C18 (the model's
+        // template errors carry no name; tools/hblib.py strips the suffix before the comparison)
+        Err(e) => format!(
+            "{}@{}",
+            terr_obs(&e),
+            e.name().map(|n| xs(n)).unwrap_or_else(|| "-".to_string())
+        ),
     }
 }
 
@@ -762,7 +768,7 @@ impl CaseState {
                         reg.register_template(name, t);
                         "ok".to_string()
                     }
-                    Err(e) => terr_obs(&e),
+                    Err(e) => reg_obs(Err(e)),
                 }
             }
             Op::Has(name) => (if self.reg()?.has_template(name) { "1" } else { "0" }).to_string(),
